@@ -161,8 +161,11 @@ def body_brute(case, ctx):
         raise Violation("shape", f"result shape {res.shape}, expected {expect_shape}")
     res2 = res.reshape(2, ncol)
     ties = False
+    # the data as the implementation sees them: a list / tuple is converted with numpy.array (float32 values become float64,
+    # so the window subtraction is done in that dtype, not in the dtype the case was generated in)
+    eff = given if isinstance(given, np.ndarray) else np.array(given)
     for c in range(ncol):
-        col = arr if arr.ndim == 1 else arr[:, c]
+        col = eff if eff.ndim == 1 else eff[:, c]
         brute_check(col, res2[0, c], res2[1, c], f, f"col{c}")
         ties = ties or (np.unique(col).size < col.size)
         # column-wise = 1-D call
